@@ -127,3 +127,22 @@ def run(ctx) -> None:
         extra = sorted(table - offered)
         if extra:
             ctx.info("R-FUNCKEYS", c.qualname, c.where, f"scaled parameters without a function: {extra}")
+
+
+# ---- added after the seeded change C25-r3seed3: memoised parameter arrays follow the table they were derived from
+_inner_run_c25 = run
+
+
+def run(ctx) -> None:  # noqa: F811
+    from ..report import OnlyConstructs
+    from . import c11
+
+    ctx.rule("R-MEMOKEY", "(the package rule of C11, kept for abtem/parametrizations) a value memoised on a "
+             "parametrization object is keyed by everything it depends on, including mutable attributes of the "
+             "object: the coefficient table can be replaced by from_json() / fit(), so converted parameter arrays "
+             "cached per (function, symbol) must be invalidated or keyed by the table — otherwise functions "
+             "requested before and after the change describe different atoms and the real-space and reciprocal-space "
+             "forms no longer belong together")
+    c11._inner_run(OnlyConstructs(ctx, ("abtem.parametrizations",)))
+    _inner_run_c25(ctx)
+
